@@ -11,17 +11,17 @@ M = [
  ("C10", "partial-store-checksum-from-source", "src/persistent-storage.c", "    if ((offset == 0) && (n == store->data.size)) {", "    if (offset == 0) {"),
  ("C10", "reset-skips-last-chunk", "src/persistent-storage.c", "    return persistent_writen(store, store->data.address, item, store->data.size);", "    return persistent_writen(store, store->data.address, item,\n                             store->data.size - (store->data.size % store->buffer.size));"),
  ("C02", "no-taint-after-block-write", "src/registers/core.c", "    reg_taint_in_range(t, addr, n);\n    return rv;", "    return rv;"),
- ("C02", "hole-check-after-first-area", "src/registers/core.c", "        if (an == t->areas) {\n            rv.code = REG_ACCESS_NOENTRY;\n            rv.address = addr;\n            return rv;\n        }\n\n        a = &t->area[an];\n        used = reg_min(a->base + a->size - addr, rest);", "        if (an == t->areas) {\n            rv.code = REG_ACCESS_NOENTRY;\n            rv.address = addr;\n            return rv;\n        }\n\n        a = &t->area[an];\n        used = reg_min(a->base + a->size - addr + 1u, rest);"),
- ("C01", "s32-min-exclusive", "src/registers/core.c", "        return (v.value.s32 >= limit.s32);", "        return (v.value.s32 > limit.s32);"),
- ("C05", "u64-max-off-by-one", "src/registers/core.c", "        return (v.value.u64 <= limit.u64);", "        return (v.value.u64 <= limit.u64 + 1u);"),
+ ("C02", "register-at-last-word-not-validated", "src/registers/core.c", "        if (e->address > last) {\n            break;\n        }", "        if (e->address >= last) {\n            break;\n        }"),
+ ("C01", "f64-min-exclusive", "src/registers/core.c", "        return (v.value.f64 >= limit.f64);", "        return (v.value.f64 > limit.f64);"),
+ ("C05", "s64-max-exclusive-bypass", "src/registers/core.c", "        return (v.value.s64 <= limit.s64);", "        return (v.value.s64 <= limit.s64 || limit.s64 < 0);"),
  ("C05", "bit-clear-skips-validation", "src/registers/core.c", "    case REG_TYPE_INVALID:\n        goto invalid;\n    }\n    rv = register_set(t, idx, reg);\n    return rv;\n\ninvalid:\n    rv.code = REG_ACCESS_INVALID;\n    rv.address = idx;\n    return rv;\n}\n\nRegisterAccess\nregister_default", "    case REG_TYPE_INVALID:\n        goto invalid;\n    }\n    rv = register_set_unsafe(t, idx, reg);\n    return rv;\n\ninvalid:\n    rv.code = REG_ACCESS_INVALID;\n    rv.address = idx;\n    return rv;\n}\n\nRegisterAccess\nregister_default"),
- ("C03", "foreach-stops-before-last", "src/registers/core.c", "    while (start <= last && t->entry[start].address <= end) {", "    while (start <= last && t->entry[start].address < end) {"),
+ ("C03", "read-chunk-ignores-start-offset-in-area", "src/registers/core.c", "        readn = reg_min(a->base + a->size - addr, rest);", "        readn = reg_min(a->size, rest);"),
  ("C03", "read-unreadable-area-not-zeroed-at-area-start", "src/registers/core.c", "        if (register_area_is_readable(a)) {\n            rv = a->read(a, buf, offset, readn);", "        if (register_area_is_readable(a) || offset == 0u) {\n            rv = a->read(a, buf, offset, readn);"),
  ("C04", "empty-area-records-one-register", "src/registers/core.c", "            a->entry.first = a->entry.last = a->entry.count = 0;", "            a->entry.first = a->entry.last = 0;\n            a->entry.count = (entry < t->entries) ? 1 : 0;"),
  ("C04", "skip-defaults-area-not-cleared", "src/registers/core.c", "        if (t->area[i].mem != NULL) {\n            memset(t->area[i].mem, 0, t->area[i].size * sizeof(RegisterAtom));", "        if (t->area[i].mem != NULL\n            && BIT_ISSET(t->area[i].flags, REG_AF_SKIP_DEFAULTS) == false) {\n            memset(t->area[i].mem, 0, t->area[i].size * sizeof(RegisterAtom));"),
- ("C04", "entry-at-area-end-accepted", "src/registers/core.c", "    return (entry_end <= area_end);", "    return (entry_end <= area_end + 1u);"),
+ ("C04", "area-checks-against-first-area-only", "src/registers/core.c", "            return rv;\n        }\n        previous = current;\n    }\n\n    previous = t->entry[0].address;", "            return rv;\n        }\n    }\n\n    previous = t->entry[0].address;"),
  ("C12", "esc-followed-by-end-does-not-resync", "src/rfc1055.c", "                    ctx->state = (data == RAW_EOF)\n                        ? RFC1055_NORMAL\n                        : RFC1055_SEARCH_FOR_END;", "                    ctx->state = RFC1055_SEARCH_FOR_END;"),
- ("C12", "sof-empty-frame-keeps-normal-state", "src/rfc1055.c", "                if (BIT_ISSET(ctx->flags, RFC1055_WITH_SOF)) {\n                    ctx->state = RFC1055_SEARCH_FOR_START;\n                }\n                return 1;", "                if (BIT_ISSET(ctx->flags, RFC1055_WITH_SOF) && data != 0u) {\n                    ctx->state = RFC1055_SEARCH_FOR_START;\n                }\n                return 1;"),
+ ("C12", "source-error-after-esc-reported-as-illegal-sequence", "src/rfc1055.c", "        MAYBE_RETURN(source_get_octet(source, &second));", "        if (source_get_octet(source, &second) < 0) {\n            return -EILSEQ;\n        }"),
  ("C13", "chunks-to-sink-ignores-active", "src/length-prefix.c", "    for (size_t i = oc->active; i < oc->chunks; ++i) {\n        const size_t n = byte_buffer_rest(oc->chunk + i);\n        if (n == 0u) {", "    for (size_t i = 0u; i < oc->chunks; ++i) {\n        const size_t n = byte_buffer_rest(oc->chunk + i);\n        if (n == 0u) {"),
  ("C13", "from-source-capacity-off-by-one", "src/length-prefix.c", "    if (len > size) {\n        return -ENOMEM;\n    }", "    if (len > size + 1u) {\n        return -ENOMEM;\n    }"),
  ("C08", "write8-does-not-advance-sequence", "src/register-protocol.c", "                      address, n, plcrc);\n    p->session.sequence++;\n    return send_memory(p, header, size, (void*)buf, n * sizeof(*buf));\n}\n#endif /* WITH_UINT8_T */", "                      address, n, plcrc);\n    return send_memory(p, header, size, (void*)buf, n * sizeof(*buf));\n}\n#endif /* WITH_UINT8_T */"),
